@@ -16,8 +16,8 @@ STUBS = ["random.choice (DrawSet.draw) -> fresh bounded index, forked over the e
          "target matrices: lazy symmetric dictionaries whose looked-up entries are fresh positive reals (full support)"]
 BOUNDS = {
     "quick": "pre-states: every placement of [edge,edge], [tri,edge] on <=4 vertices, each with every assignment of at most 2 optional extra "
-             "first-topology motifs to the vertex annotations (window of a larger network); the consistent templates chain2, mixed, star2 (6-7 vertices) "
-             "and trideg (5 triangles on 12 vertices, triangle swaps are accepted there); one accepted swap (convergence_limit=0), search_limit in {1,2}; <=6 RNG draws; defaults construct",
+             "first-topology motifs to the vertex annotations (window of a larger network); the consistent templates chain2, mixed, star2 (6-7 vertices), "
+             "trideg (5 triangles on 12 vertices, triangle swaps are accepted there) and diamond2pair (two diamonds whose corners mix two edge topologies); one accepted swap (convergence_limit=0), search_limit in {1,2}; <=6 RNG draws; defaults construct",
     "thorough": "additionally [edge,edge,edge] on 4-5, [tri,tri] on 5 (<=3 extras) and 6, [tri,edge,edge], [tri,tri,edge] on 5 vertices, templates tri4, tri3fan and c4pair (4-cycles), "
                 "two accepted swaps (convergence_limit=1) on chain2 and [edge,edge]; <=9 draws",
 }
@@ -49,7 +49,7 @@ def configs(tier):
     add(["edge", "edge"], 4)
     add(["edge", "edge"], 3, search=2)
     add(["tri", "edge"], 4)
-    for t in ("chain2", "trideg", "mixed"):
+    for t in ("chain2", "trideg", "mixed", "diamond2pair"):
         tpl(t)
     tpl("star2", search=2)
     cfgs.append({"name": "defaults", "kind": "defaults", "shapes": ["tri", "edge"], "V": 4})
